@@ -1248,4 +1248,186 @@ theorem Emits.tick {c : Cfg} (s : Node) : Emits s (s.tick c) := by
     · exact pingOuts_ok s _ o h
     · cases h
 
+/-! ### only received cells refresh `last_activity` (sending does not) -/
+
+/-- every entry of `t'` comes from an entry of `t` under the same key with the same `last_activity` -/
+def LastKept (t t' : Tbl) : Prop := ∀ p' ∈ t', ∃ p ∈ t, p.1 = p'.1 ∧ p.2.last = p'.2.last
+
+theorem LastKept.refl (t : Tbl) : LastKept t t := fun p hp => ⟨p, hp, rfl, rfl⟩
+
+theorem LastKept.trans {a b d : Tbl} (h1 : LastKept a b) (h2 : LastKept b d) : LastKept a d := by
+  intro p hp
+  obtain ⟨q, hq, k1, l1⟩ := h2 p hp
+  obtain ⟨r, hr, k2, l2⟩ := h1 q hq
+  exact ⟨r, hr, k2.trans k1, l2.trans l1⟩
+
+theorem LastKept.modify (t : Tbl) (i : Nat) (f : Entry → Entry) (hf : ∀ e, (f e).last = e.last) :
+    LastKept t (t.modify i f) := by
+  intro p hp
+  unfold Tbl.modify at hp
+  rw [List.mem_map] at hp
+  obtain ⟨q, hq, rfl⟩ := hp
+  refine ⟨q, hq, ?_, ?_⟩ <;> split <;> simp [hf]
+
+theorem LastKept.mapAll (t : Tbl) (f : Entry → Entry) (hf : ∀ e, (f e).last = e.last) :
+    LastKept t (t.mapAll f) := by
+  intro p hp
+  unfold Tbl.mapAll at hp
+  rw [List.mem_map] at hp
+  obtain ⟨q, hq, rfl⟩ := hp
+  refine ⟨q, hq, rfl, ?_⟩
+  simp only
+  split <;> simp [hf]
+
+theorem remove_last (c : Cfg) (n : Nat) (b : Bool) (e : Entry) : (e.remove c n b).last = e.last :=
+  (remove_fields c n b e).1
+
+theorem removeC_last (c : Cfg) (n : Nat) (e : Entry) : (e.removeC c n).last = e.last := (removeC_fields c n e).1
+
+theorem retried_last (c : Cfg) (n peer : Nat) (next : Option (Nat × Nat)) (e : Entry) :
+    (e.retried c n peer next).last = e.last := by
+  unfold Entry.retried
+  split
+  · split
+    · split
+      · rfl
+      · exact removeC_last c n e
+    · rfl
+  · rfl
+
+theorem tickRelay_last (c : Cfg) (n : Nat) (sw : Bool) (e : Entry) : (tickRelay c n sw e).last = e.last := by
+  unfold tickRelay
+  simp only
+  have hp := (pop_fields n e).1
+  split
+  · exact hp
+  · split
+    · split
+      · rw [remove_last]; exact hp
+      · exact hp
+    · exact hp
+
+theorem tickExit_last (c : Cfg) (n : Nat) (sw : Bool) (e : Entry) : (tickExit c n sw e).last = e.last := by
+  unfold tickExit
+  simp only
+  have hp := (pop_fields n e).1
+  split
+  · exact hp
+  · split
+    · split
+      · rw [remove_last]; exact hp
+      · exact hp
+    · exact hp
+
+theorem retryTimeout_last (c : Cfg) (n : Nat) (e : Entry) : (retryTimeout c n e).last = e.last := by
+  unfold retryTimeout
+  split
+  · split
+    · split
+      · rfl
+      · split
+        · exact removeC_last c n e
+        · rfl
+    · rfl
+  · rfl
+
+theorem sweepC_last (c : Cfg) (n : Nat) (sw : Bool) (e : Entry) : (sweepC c n sw e).last = e.last := by
+  unfold sweepC
+  split
+  · split
+    · exact removeC_last c n e
+    · rfl
+  · rfl
+
+theorem tickCircuit_last (c : Cfg) (n : Nat) (sw : Bool) (e : Entry) : (tickCircuit c n sw e).last = e.last := by
+  unfold tickCircuit
+  simp only
+  have hp := (pop_fields n e).1
+  split
+  · exact hp
+  · split
+    · rw [retryTimeout_last]; exact hp
+    · rw [sweepC_last, retryTimeout_last]; exact hp
+
+/-- all three tables keep every `last_activity` -/
+def QuietStep (s s' : Node) : Prop :=
+  LastKept s.circuits s'.circuits ∧ LastKept s.relays s'.relays ∧ LastKept s.exits s'.exits
+
+theorem QuietStep.refl (s : Node) : QuietStep s s := ⟨LastKept.refl _, LastKept.refl _, LastKept.refl _⟩
+
+theorem QuietStep.tick (c : Cfg) (s : Node) : QuietStep s (s.tick c) :=
+  ⟨LastKept.mapAll _ _ (tickCircuit_last c _ _), LastKept.mapAll _ _ (tickRelay_last c _ _),
+   LastKept.mapAll _ _ (tickExit_last c _ _)⟩
+
+theorem QuietStep.onDestroyRest (c : Cfg) (s : Node) (id peer : Nat) : QuietStep s (s.onDestroyRest c id peer) := by
+  have hc : ∀ i, QuietStep s { s with circuits := s.circuits.modify i (Entry.removeC c s.now) } := fun i =>
+    ⟨LastKept.modify _ _ _ (removeC_last c _), LastKept.refl _, LastKept.refl _⟩
+  unfold Node.onDestroyRest
+  split
+  · split
+    · exact ⟨LastKept.refl _, LastKept.refl _, LastKept.modify _ _ _ (remove_last c _ _)⟩
+    · split
+      · split
+        · exact hc _
+        · exact QuietStep.refl s
+      · exact QuietStep.refl s
+  · split
+    · split
+      · exact hc _
+      · exact QuietStep.refl s
+    · exact QuietStep.refl s
+
+theorem QuietStep.onDestroy (c : Cfg) (s : Node) (id peer : Nat) : QuietStep s (s.onDestroy c id peer) := by
+  unfold Node.onDestroy
+  split
+  · split
+    · split
+      · exact ⟨LastKept.refl _,
+               (LastKept.modify _ _ _ (remove_last c _ _)).trans (LastKept.modify _ _ _ (remove_last c _ _)),
+               LastKept.refl _⟩
+      · exact QuietStep.onDestroyRest c s id peer
+    · exact QuietStep.onDestroyRest c s id peer
+  · exact QuietStep.onDestroyRest c s id peer
+
+/-- stimuli that are not the reception of a cell (and not the creation of a circuit) -/
+def Ev.isLocal : Ev → Bool
+  | .cell .. => false
+  | .mkCircuit .. => false
+  | _ => true
+
+theorem QuietStep.step (c : Cfg) (s : Node) (ev : Ev) (h : ev.isLocal = true) : QuietStep s (s.step c ev) := by
+  cases ev with
+  | mkCircuit id goal peer cands ident => cases h
+  | cell id early plain ok body => cases h
+  | destroy id peer => exact QuietStep.onDestroy c s id peer
+  | rmCircuit id destroy =>
+    show QuietStep s (match s.circuits.get id with | some e => _ | Option.none => s)
+    split
+    · exact ⟨LastKept.modify _ _ _ (removeC_last c _), LastKept.refl _, LastKept.refl _⟩
+    · exact QuietStep.refl s
+  | rmRelay id destroy =>
+    show QuietStep s (match s.relays.get id with | some e => _ | Option.none => s)
+    split
+    · exact ⟨LastKept.refl _, LastKept.modify _ _ _ (remove_last c _ _), LastKept.refl _⟩
+    · exact QuietStep.refl s
+  | rmExit id destroy removeNow =>
+    show QuietStep s (match s.exits.get id with | some e => _ | Option.none => s)
+    split
+    · exact ⟨LastKept.refl _, LastKept.refl _, LastKept.modify _ _ _ (remove_last c _ _)⟩
+    · exact QuietStep.refl s
+  | retry id peer next =>
+    exact ⟨LastKept.modify _ _ _ (retried_last c _ peer next), LastKept.refl _, LastKept.refl _⟩
+  | outside id =>
+    show QuietStep s (match s.exits.get id with | some e => _ | Option.none => s)
+    split
+    · exact QuietStep.refl s
+    · exact QuietStep.refl s
+  | traffic tbl id amount =>
+    show QuietStep s (if tbl == 0 then _ else if tbl == 1 then _ else _)
+    split
+    · exact ⟨LastKept.modify _ _ (fun e => { e with bytes := e.bytes + amount }) (fun _ => rfl), LastKept.refl _, LastKept.refl _⟩
+    · split
+      · exact ⟨LastKept.refl _, LastKept.modify _ _ (fun e => { e with bytes := e.bytes + amount }) (fun _ => rfl), LastKept.refl _⟩
+      · exact ⟨LastKept.refl _, LastKept.refl _, LastKept.modify _ _ (fun e => { e with bytes := e.bytes + amount }) (fun _ => rfl)⟩
+
 end Ipv8.C09
